@@ -111,8 +111,11 @@ Section DbProofs.
   Variable enc : record -> bytes.
   Variable dec : bytes -> option record.
   Hypothesis crc_range : forall p, 0 <= crc p < two32.
-  Hypothesis dec_enc : forall r, dec (enc r) = Some r.
-  Hypothesis enc_short : forall r, lenZ (enc r) < two32.
+  Notation ok := (rec_ok enc dec).
+  Notation step_logs := (step_logs).
+  Notation ops_logs := (ops_logs crc enc).
+  Notation close_logs := (close_logs).
+  Notation hist_logs := (hist_logs crc enc dec).
 
   Notation frames := (frames crc enc).
   Notation wlog := (wlog crc enc).
@@ -247,15 +250,15 @@ Section DbProofs.
 
   (** recovery of such a directory runs the machine over [log] *)
   Lemma recover_single d f log :
-    d_files d = [(0, f)] -> f_bytes f = frames log -> meta0 (d_meta d) ->
+    Forall ok log -> d_files d = [(0, f)] -> f_bytes f = frames log -> meta0 (d_meta d) ->
     recover crc dec d = ROk (snd (sm_run ([], []) log))
     /\ leftover crc dec d = fst (sm_run ([], []) log).
   Proof.
-    intros Hf Hb Hm.
+    intros Hok Hf Hb Hm.
     assert (Hms : min_seq (d_meta d) = 0) by (destruct Hm as [->|(c & -> & Hc)]; [reflexivity|exact Hc]).
     assert (Hnb : d_meta d <> MetaBad) by (destruct Hm as [->|(c & -> & _)]; discriminate).
     assert (Hr : disk_records crc dec 0 [(0, f)] = log).
-    { cbn [Recover.disk_records]. rewrite (file_records_frames crc enc dec crc_range dec_enc enc_short f log Hb).
+    { cbn [Recover.disk_records]. rewrite (file_records_frames crc enc dec crc_range f log Hok Hb).
       cbn. apply app_nil_r. }
     split.
     - rewrite recover_spec by exact Hnb. rewrite Hms, Hf, Hr. reflexivity.
@@ -266,7 +269,8 @@ Section DbProofs.
   Definition pend (log : list record) : list record := fst (sm_run ([], []) log).
   Definition Inv (st : dbstate) (log : list record) : Prop :=
     single (db_w st) log /\ meta0 (d_meta (w_disk (db_w st)))
-    /\ db_store st = apply_all empty_store (datas (snd (sm_run ([], []) log)) ++ pend log).
+    /\ db_store st = apply_all empty_store (datas (snd (sm_run ([], []) log)) ++ pend log)
+    /\ Forall ok log.
 
   Lemma sm_run_data_records rs : forall p c, forallb is_data rs = true -> sm_run (p, c) rs = (p ++ rs, c).
   Proof.
@@ -277,15 +281,16 @@ Section DbProofs.
   Qed.
 
   Lemma inv_log_data st log rs st' :
-    Inv st log -> forallb is_data rs = true ->
+    Inv st log -> forallb is_data rs = true -> Forall ok rs ->
     single (db_w st') (log ++ rs) -> meta0 (d_meta (w_disk (db_w st'))) ->
     db_store st' = apply_all (db_store st) rs ->
     Inv st' (log ++ rs) /\ (rs = [] -> pend (log ++ rs) = pend log).
   Proof.
-    intros (S & M & E) Hd S' M' E'. unfold Inv, pend in *.
+    intros (S & M & E & OK) Hd Hok S' M' E'. unfold Inv, pend in *.
     rewrite sm_run_app. destruct (sm_run ([], []) log) as [p c] eqn:R.
     rewrite (sm_run_data_records rs p c Hd). cbn [fst snd] in *. repeat split; try assumption.
     - rewrite E', E, <- apply_all_app, <- app_assoc. reflexivity.
+    - apply Forall_app. split; assumption.
     - intros ->. apply app_nil_r.
   Qed.
 
@@ -314,15 +319,17 @@ Section DbProofs.
     db_step cfg st o = (st1, res) ->
     (is_cp_op o && dirty) = false -> (is_rm_op o && out_true res) = false -> is_sess_op o = false ->
     (w_seq (db_w st1) =? w_seq (db_w st)) = true ->
+    Forall ok (step_logs st o) ->
     exists log1, Inv st1 log1
       /\ ((if is_cp_op o then false else dirty || logs_something (db_store st) (db_tm st) o) = false -> pend log1 = []).
   Proof.
-    intros I Hdirty E Hcp Hrm Hse Hseq. apply Z.eqb_eq in Hseq.
-    pose proof I as (S & M & ES). pose proof (single_seq _ _ S) as S0. rewrite S0 in Hseq.
+    intros I Hdirty E Hcp Hrm Hse Hseq Hok. apply Z.eqb_eq in Hseq.
+    pose proof I as (S & M & ES & OK). pose proof (single_seq _ _ S) as S0. rewrite S0 in Hseq.
     destruct (is_wal_op o) eqn:W.
     - destruct o; try discriminate W; cbn [Db.db_step] in E.
       + (* checkpoint *)
-        destruct (last_or_begin (db_tm st)) as [tx t1]. injection E as <- <-. cbn [db_w db_store] in *.
+        cbn [Classes.step_logs] in Hok.
+        destruct (last_or_begin (db_tm st)) as [tx t1]. injection E as <- <-. cbn [db_w db_store fst] in *.
         rewrite wsync_seq in Hseq.
         destruct (wcheckpoint_single cfg (db_w st) log tx _ S Hseq) as [S1 M1].
         destruct (wsync_single _ _ S1) as [S2 M2].
@@ -332,6 +339,7 @@ Section DbProofs.
         cbn [sm_step fst snd]. repeat split; try assumption.
         all: try (rewrite ES, datas_app; cbn; rewrite !app_nil_r; reflexivity).
         all: try (rewrite M2; exact M1).
+        apply Forall_app. split; assumption.
       + (* rotate *) injection E as <- <-. cbn [db_w] in Hseq. rewrite wrotate_seq in Hseq. lia.
       + (* sync *) injection E as <- <-. cbn [db_w db_store] in *.
         destruct (wsync_single _ _ S) as [S1 M1]. exists log. unfold Inv. cbn [db_w db_store].
@@ -344,7 +352,10 @@ Section DbProofs.
       destruct (op_effect_apply _ _ _ _ _ _ _ OE Hse Hrm) as (A1 & A2 & A3).
       destruct (wlog_all_single cfg rs (db_w st) log S Hseq) as [S1 M1].
       assert (M1' : meta0 (d_meta (w_disk (wlog_all cfg (db_w st) rs)))) by (rewrite M1; exact M).
-      destruct (inv_log_data st log rs (mkDb s1 t1 (wlog_all cfg (db_w st) rs)) I A2 S1 M1' A1) as [I1 P1].
+      assert (Hok' : Forall ok rs).
+      { assert (SL : step_logs st o = rs) by (destruct o; try discriminate W; cbn [Classes.step_logs]; rewrite OE; reflexivity).
+        rewrite <- SL. exact Hok. }
+      destruct (inv_log_data st log rs (mkDb s1 t1 (wlog_all cfg (db_w st) rs)) I A2 Hok' S1 M1' A1) as [I1 P1].
       exists (log ++ rs). split; [exact I1|].
       assert (Cp : is_cp_op o = false) by (destruct o; try reflexivity; discriminate W).
       rewrite Cp. unfold logs_something. rewrite OE. intros Hd. apply orb_false_elim in Hd as [Hd1 Hd2].
@@ -361,11 +372,13 @@ Section DbProofs.
   Lemma scan_inv cfg os : forall st dirty acc log,
     Inv st log -> (dirty = false -> pend log = []) ->
     kclean (fst (scan cfg st dirty os acc)) = true ->
+    Forall ok (ops_logs cfg st os) ->
     kclean acc = true /\ exists log1, Inv (snd (scan cfg st dirty os acc)) log1.
   Proof.
-    induction os as [|o r IH]; intros st dirty acc log I Hd Hk.
+    induction os as [|o r IH]; intros st dirty acc log I Hd Hk Hok.
     - cbn in *. eauto.
-    - cbn [Classes.scan] in *. destruct (db_step cfg st o) as [st1 res] eqn:E.
+    - cbn [Classes.scan Classes.ops_logs] in *. apply Forall_app in Hok as [Hok1 Hok2].
+      destruct (db_step cfg st o) as [st1 res] eqn:E. cbn [fst] in Hok2.
       set (acc1 := mkK _ _ _ _) in *. set (dirty1 := if is_cp_op o then false else _) in *.
       (* the flags only grow: first learn that this step raised none *)
       assert (Hmono : forall st' d' a', kclean (fst (scan cfg st' d' r a')) = true -> kclean a' = true).
@@ -378,10 +391,10 @@ Section DbProofs.
       apply kclean_false in Hk1 as (H1 & H2 & H3 & H4). unfold acc1 in *. cbn [k_cp k_rm k_sess k_rot] in *.
       apply orb_false_elim in H1 as [A1 B1], H2 as [A2 B2], H3 as [A3 B3], H4 as [A4 B4].
       apply negb_false_iff in B4.
-      destruct (db_step_inv cfg st log o st1 res dirty I Hd E B1 B2 B3 B4) as (log1 & I1 & P1).
+      destruct (db_step_inv cfg st log o st1 res dirty I Hd E B1 B2 B3 B4 Hok1) as (log1 & I1 & P1).
       destruct (IH st1 dirty1 (mkK (k_cp acc || is_cp_op o && dirty) (k_rm acc || is_rm_op o && out_true res)
                                    (k_sess acc || is_sess_op o) (k_rot acc || negb (w_seq (db_w st1) =? w_seq (db_w st))))
-                   log1 I1 P1 Hk) as [_ R].
+                   log1 I1 P1 Hk Hok2) as [_ R].
       split; [|exact R]. unfold kclean. rewrite A1, A2, A3, A4. reflexivity.
   Qed.
 
@@ -391,12 +404,15 @@ Section DbProofs.
   (** close, then open again *)
   Lemma close_reopen_inv cfg st log :
     Inv st log -> w_seq (db_w (db_close cfg st)) = w_seq (db_w st) ->
+    Forall ok (close_logs st) ->
     exists st2 log2, db_open (end_disk cfg st EClose) = ROk st2
       /\ db_store st2 = db_store st /\ Inv st2 log2 /\ pend log2 = [].
   Proof.
-    intros (S & M & ES) Hseq. pose proof (single_seq _ _ S) as S0.
-    unfold Db.end_disk. unfold Db.db_close in *.
-    destruct (last_or_begin (db_tm st)) as [tx t1]. cbn [db_w db_store] in *.
+    intros (S & M & ES & OK) Hseq Hok. pose proof (single_seq _ _ S) as S0.
+    unfold Db.end_disk. unfold Db.db_close in *. unfold Classes.close_logs in Hok.
+    destruct (last_or_begin (db_tm st)) as [tx t1]. cbn [db_w db_store fst] in *.
+    assert (OK2 : Forall ok ((log ++ [TxCommit tx]) ++ [Checkpoint tx])).
+    { rewrite <- app_assoc. apply Forall_app. split; [exact OK|exact Hok]. }
     rewrite wsync_seq, S0 in Hseq.
     set (w1 := wlog cfg (db_w st) (TxCommit tx)) in *.
     assert (H1 : w_seq w1 = 0).
@@ -409,7 +425,7 @@ Section DbProofs.
     set (d := wdrop (wsync (wcheckpoint cfg w1 tx (s_epoch (db_store st))))) in *.
     set (log2 := (log ++ [TxCommit tx]) ++ [Checkpoint tx]) in *.
     assert (Md : meta0 (d_meta d)) by (rewrite Hm, M3; exact M2).
-    destruct (recover_single d f log2 Hf Hb Md) as [R L].
+    destruct (recover_single d f log2 OK2 Hf Hb Md) as [R L].
     assert (SM : sm_run ([], []) log2 = ([], (snd (sm_run ([], []) log) ++ pend log ++ [TxCommit tx]) ++ [Checkpoint tx])).
     { unfold log2, pend. rewrite !sm_run_snoc. destruct (sm_run ([], []) log) as [p c]. reflexivity. }
     unfold Db.db_open. rewrite R. eexists. exists log2. split; [reflexivity|].
@@ -428,40 +444,35 @@ Section DbProofs.
   Lemma clean_cycle_gen cfg ss : forall st log,
     Inv st log -> pend log = [] ->
     no_crash ss = true -> forallb kclean (hist_flags cfg st ss) = true ->
+    Forall ok (hist_logs cfg st ss) ->
     Forall cycle_exact (fst (run_sessions cfg st ss)).
   Proof.
-    induction ss as [|[os e] r IH]; intros st log I P Hc Hk; [constructor|].
+    induction ss as [|[os e] r IH]; intros st log I P Hc Hk Hok; [constructor|].
     cbn [no_crash forallb snd] in Hc. apply andb_prop in Hc as [He Hc]. destruct e; [|discriminate].
-    cbn [Classes.hist_flags Db.run_sessions] in *.
+    cbn [Classes.hist_flags Db.run_sessions Classes.hist_logs] in *.
     unfold Classes.sess_flags in Hk.
-    pose proof I as (S & M & ES).
+    pose proof I as (S & M & ES & OK).
     destruct S as (f & Hf & Hb & Hs0).
-    destruct (recover_single (w_disk (db_w st)) f log Hf Hb M) as [_ L]. rewrite L in Hk.
+    destruct (recover_single (w_disk (db_w st)) f log OK Hf Hb M) as [_ L]. rewrite L in Hk.
     fold (pend log) in Hk. rewrite P in Hk. cbn [existsb] in Hk.
     pose proof (scan_state cfg os st false k0) as SS.
     destruct (scan cfg st false os k0) as [fl st1] eqn:SC. cbn [snd] in SS.
-    destruct (run_ops cfg st os) as [st1' outs] eqn:RO. cbn [fst] in SS. subst st1'.
-    destruct (db_open (end_disk cfg st1 EClose)) as [st2|] eqn:DO.
-    - cbn [forallb] in Hk. apply andb_prop in Hk as [Hk1 Hk2].
-      apply kclean_false in Hk1 as (K1 & K2 & K3 & K4). cbn [k_cp k_rm k_sess k_rot] in *.
-      apply orb_false_elim in K4 as [K4 K5]. apply negb_false_iff, Z.eqb_eq in K5.
-      assert (Kfl : kclean fl = true) by (unfold kclean; rewrite K1, K2, K3, K4; reflexivity).
-      destruct (scan_inv cfg os st false k0 log I (fun _ => P)) as [_ (log1 & I1)]; [rewrite SC; exact Kfl|].
-      rewrite SC in I1. cbn [snd] in I1.
-      destruct (close_reopen_inv cfg st1 log1 I1 K5) as (st2' & log2 & DO' & ST & I2 & P2).
-      rewrite DO in DO'. injection DO' as <-.
-      destruct (run_sessions cfg st2 r) as [obs fin] eqn:RS. cbn [fst].
-      constructor.
-      + unfold cycle_exact. cbn. rewrite ST. reflexivity.
-      + specialize (IH st2 log2 I2 P2 Hc Hk2). rewrite RS in IH. exact IH.
-    - cbn [forallb] in Hk. apply andb_prop in Hk as [Hk1 _].
-      apply kclean_false in Hk1 as (K1 & K2 & K3 & K4). cbn [k_cp k_rm k_sess k_rot] in *.
-      apply orb_false_elim in K4 as [K4 K5]. apply negb_false_iff, Z.eqb_eq in K5.
-      assert (Kfl : kclean fl = true) by (unfold kclean; rewrite K1, K2, K3, K4; reflexivity).
-      destruct (scan_inv cfg os st false k0 log I (fun _ => P)) as [_ (log1 & I1)]; [rewrite SC; exact Kfl|].
-      rewrite SC in I1. cbn [snd] in I1.
-      destruct (close_reopen_inv cfg st1 log1 I1 K5) as (st2' & log2 & DO' & _).
-      rewrite DO in DO'. discriminate.
+    destruct (run_ops cfg st os) as [st1' outs] eqn:RO. cbn [fst] in SS, Hok. subst st1'.
+    apply Forall_app in Hok as [Hok1 Hok2]. apply Forall_app in Hok2 as [Hok2 Hok3].
+    assert (Kall : kclean fl = true /\ w_seq (db_w (db_close cfg st1)) = w_seq (db_w st1)).
+    { destruct (db_open (end_disk cfg st1 EClose)); cbn [forallb] in Hk; apply andb_prop in Hk as [Hk1 _];
+        apply kclean_false in Hk1 as (K1 & K2 & K3 & K4); cbn [k_cp k_rm k_sess k_rot] in *;
+        apply orb_false_elim in K4 as [K4 K5]; apply negb_false_iff, Z.eqb_eq in K5;
+        (split; [unfold kclean; rewrite K1, K2, K3, K4; reflexivity|exact K5]). }
+    destruct Kall as [Kfl K5].
+    destruct (scan_inv cfg os st false k0 log I (fun _ => P)) as [_ (log1 & I1)]; [rewrite SC; exact Kfl|exact Hok1|].
+    rewrite SC in I1. cbn [snd] in I1.
+    destruct (close_reopen_inv cfg st1 log1 I1 K5 Hok2) as (st2 & log2 & DO & ST & I2 & P2).
+    rewrite DO in *. cbn [forallb] in Hk. apply andb_prop in Hk as [_ Hk2].
+    destruct (run_sessions cfg st2 r) as [obs fin] eqn:RS. cbn [fst].
+    constructor.
+    - unfold cycle_exact. cbn. rewrite ST. reflexivity.
+    - specialize (IH st2 log2 I2 P2 Hc Hk2 Hok3). rewrite RS in IH. exact IH.
   Qed.
 
   Lemma inv_fresh : Inv (db_fresh) [] /\ pend [] = [].
@@ -469,11 +480,13 @@ Section DbProofs.
     split; [|reflexivity]. unfold Inv, db_fresh. cbn [db_w db_store]. repeat split.
     - exists empty_file. repeat split.
     - left. reflexivity.
+    - constructor.
   Qed.
 
   (** T clean_cycle *)
   Lemma clean_cycle_l cfg ss :
     no_crash ss = true -> forallb kclean (hist_flags cfg db_fresh ss) = true ->
+    Forall ok (hist_logs cfg db_fresh ss) ->
     Forall cycle_exact (fst (run_sessions cfg db_fresh ss)).
   Proof. intros. destruct inv_fresh as [I P]. eapply clean_cycle_gen; eassumption. Qed.
 End DbProofs.
